@@ -776,9 +776,47 @@ def gen_qspecs(rng, quick):
     return specs
 
 
-def run_query_cases(chk):
+LONG_SIZES = (999, 1000, 1001, 1023, 1024, 1025, 4095, 4096, 4097, 9999, 10000, 10001, 65535, 65536, 65537, 70001, 131073)
+LONG_QUICK = ((1023, 1024, 1025, 4095, 4096, 4097), (9999, 10000, 10001), (65536, 65537, 70001))
+LONG_RULE = ("long-records: series of 999 .. 131073 samples (just below / at / above 1000, 1024, 4096, 10000, 65536; uniform / non-uniform; "
+             "float64 / float32 / read-only / shared caller arrays) with a history of 12 (quick) .. 60 queries on the same object — get / maxima / "
+             "minima / rfc / psd / stats / extremes with and without options first, then drawn from the boundary / spelled option pools and all "
+             "entry points, in-place changes of the series in between — every one judged by the clauses of the query stream (stored arrays and "
+             "attributes bit-for-bit unchanged, also observed during the call and with read-only stored arrays; no aliasing; repeated answers "
+             "equal, also after writing to returned arrays; same answer on a copy taken now); copies (copy(), copy.copy, copy(newname), "
+             "TsDB.copy, TsDB.update) of series of those lengths after short histories: equal in every array and attribute, independent")
+
+
+def gen_long_qspecs(rng, quick):
+    sizes = [rng.choice(g) for g in LONG_QUICK] if quick else list(LONG_SIZES) * 2
+    specs = []
+    for n in sizes:
+        sp = dict(uniform=rng.random() < 0.6, n=n, seed=rng.randrange(10 ** 6))
+        if rng.random() < 0.4:
+            sp.update(tspell=rng.choice(["f8", "view", "readonly", "shared"]), xspell=rng.choice(["f8", "f4", "view", "readonly"]))
+        if rng.random() < 0.25:
+            sp["xkind"] = "ties"
+        specs.append((sp, rng.random() < 0.5))
+    return specs
+
+
+def long_steps(rng, quick, spelled):
+    """the history of a long series: the main queries first (plain and with a window / resampling), then steps of the ordinary generator"""
+    first = [("get", {}), ("minima", {}), ("maxima", {}), ("rfc", {}), ("psd", {}), ("stats", {}), ("max", {}), ("get", {"twin": "inner"}),
+             ("minima", {"twin": "inner"}), ("get", {"resample": "own-dt"})]
+    rng.shuffle(first)
+    pool = [st for st in gen_query_cases(rng, True, spelled) if st[0] not in SLOW and not (st[0].startswith("funcs.psd") and quick)]
+    k = 12 if quick else 60
+    rest = rng.sample(pool, min(len(pool), k))
+    return first[:6 if quick else 10] + rest[:k - (6 if quick else 10)]
+
+
+def run_query_cases(chk, long=False):
     rng = chk.rng
-    for si, (spec, spelled) in enumerate(gen_qspecs(rng, chk.quick)):
+    if long and os.environ.get("VERIF_SKIP_LONG"):     # the check as it was before this stream (to compare what each one notices)
+        return
+    stream = "long-records" if long else "query-boundary"
+    for si, (spec, spelled) in enumerate(gen_long_qspecs(rng, chk.quick) if long else gen_qspecs(rng, chk.quick)):
         try:
             ts, src = build_qseries2(spec)
         except Exception as e:
@@ -788,11 +826,15 @@ def run_query_cases(chk):
         src0 = (src[0].tobytes(), src[1].tobytes())
         hist = []
         ref = snap(ts)
-        steps = gen_query_cases(rng, chk.quick, spelled)
-        if si >= 4:                     # the special series: a part of the steps each
-            steps = steps[:150 if chk.quick else 600]
-        chk.dist("series:t=%s/x=%s/%s/n=%s" % (spec.get("tspell", "f8"), spec.get("xspell", "f8"), spec.get("xkind", "plain"),
-                                               "1-5" if spec["n"] <= 5 else "long"))
+        if long:
+            steps = long_steps(rng, chk.quick, spelled)
+            chk.dist("long record: %d samples" % spec["n"])
+        else:
+            steps = gen_query_cases(rng, chk.quick, spelled)
+            if si >= 4:                     # the special series: a part of the steps each
+                steps = steps[:150 if chk.quick else 600]
+            chk.dist("series:t=%s/x=%s/%s/n=%s" % (spec.get("tspell", "f8"), spec.get("xspell", "f8"), spec.get("xkind", "plain"),
+                                                   "1-5" if spec["n"] <= 5 else "long"))
         fresh = True
         for m, o in steps:
             if m == "!mutate":
@@ -806,7 +848,7 @@ def run_query_cases(chk):
                 continue
             vs_copy = fresh or rng.random() < 0.1
             fresh = False
-            chk.count("query-boundary")
+            chk.count(stream)
             chk.dist("method:" + m)
             for k in o:
                 chk.dist("boundary-option:" + k)
@@ -2215,9 +2257,17 @@ def run(chk):
         for oracle, expected, observed in check_case(inp):
             chk.fail(oracle, inp, expected, observed)
     run_query_cases(chk)
+    run_query_cases(chk, long=True)
+    chk.extra["rule"] = str(chk.extra.get("rule", "")) + " " + LONG_RULE
     # ---- copies of series and databases (cases) ---------------------------------------------------------------------------------
     cases = [c for c in core.load_corpus("C10") if c.get("kind") in ("copy", "db")]
     cases += gen_copy_cases(rng, chk.quick) + gen_db_cases(rng, chk.quick)
+    if not os.environ.get("VERIF_SKIP_LONG"):
+        for n in ([rng.choice(g) for g in LONG_QUICK] if chk.quick else list(LONG_SIZES) * 2):
+            h = [rng.choice(HIST_MUT) if rng.random() < 0.3 else rng.choice(HIST_OPS) for _ in range(rng.randint(0, 3))]
+            cases.append(dict(kind="copy", series=dict(name="s", grid=rng.choice(["half", "nonuni", "third", "accum", "random"]), dtg=rng.choice(DTGS),
+                                                       n=n, seed=rng.randrange(10 ** 6), **({"xkind": "f4"} if rng.random() < 0.2 else {})),
+                              history=h, how=rng.choice(HOWS), twice=rng.random() < 0.5, reverse=rng.random() < 0.5))
     for inp in cases:
         chk.count(inp["kind"] + "-case")
         if inp["kind"] == "copy":
